@@ -125,7 +125,8 @@ func Compress(msg *pb.XuperMessage) *pb.XuperMessage {
 
 // Decompress decompress msg
 func Decompress(msg *pb.XuperMessage) ([]byte, error) {
-	if msg == nil || msg.Header == nil || msg.Data == nil || msg.Data.MsgInfo == nil {
+	// MsgInfo may be nil: proto3 omits empty bytes on the wire, so an empty payload arrives as nil
+	if msg == nil || msg.Header == nil || msg.Data == nil {
 		return []byte{}, errors.New("param error")
 	}
 
